@@ -78,7 +78,7 @@ class _PokTranslator(_util.OverrideableDataDesc):
 
         from sigtools import wrappers
         self.custom_getter = wrappers.Combination(
-            self.custom_getter, other.custom_getter)
+            other.custom_getter, self.custom_getter)
 
     def _prepare(self):
         intersection = self.posoarg_names & self.kwoarg_names
